@@ -177,6 +177,20 @@ class Monitor:
             except Exception as ex:
                 self.viol('export-raises', side, di, feats, case, type(ex).__name__)
                 continue
+            # ---- the message frame codec carries the exported form unchanged (node -> client: update, client -> node: change)
+            try:
+                from frappy.protocol.interface import encode_msg_frame, decode_msg
+                frame = encode_msg_frame('update' if side == 'node' else 'change', 'm:p', [e, {}] if side == 'node' else e)
+                act, spec, data = decode_msg(frame[:-1])
+                got = data[0] if side == 'node' else data
+                r.count('oracle_frame_codec')
+                if frame[-1:] != b'\n' or b'\n' in frame[:-1] or got != e2 or spec != 'm:p':
+                    case['frame'] = frame[:200].decode('latin1')
+                    self.viol('frame-codec-changes-value', side, di, feats, case)
+                    continue
+            except Exception as ex:
+                self.viol('frame-codec-raises', side, di, feats, case, type(ex).__name__)
+                continue
             r.count('oracle_wire_kind')
             if not judged_scaled:
                 r.count('not_judged_scaled_far')
